@@ -529,3 +529,62 @@ func init() {
 	old := registry["C13"].Run
 	registry["C13"].Run = func(c *Ctx) { old(c); c13Q4(c) }
 }
+
+// Q5: the store cuts every scan page at its own limit (rockredis.checkScanCount). The handlers decide "last page" by
+// comparing the page length with the count, so the count they use must have been cut at the same limit: parseScanArgs
+// stores that very constant into the count under "count above it", on the way to its normal return.
+func c13Q5(c *Ctx) {
+	r := c.R
+	r.Clause("C13-Q5", "the count a page is measured against is cut at the store's page limit")
+	limit := ""
+	if u := c.unit("C13-Q5", "rockredis.checkScanCount"); u != nil {
+		for _, s := range u.Match(an.LocalStore("count")) {
+			if s.RHS == nil {
+				continue
+			}
+			v := u.C.Term(s.RHS)
+			if res := flow.Implies(u.SitePC(s), c.W.Parse(v+" < p0")); res.Holds && res.Undecided == "" {
+				limit = v
+			}
+		}
+		r.Check("C13-Q5", u.Name+": cuts the page size at a constant limit", "", limit != "", "limit "+limit)
+	}
+	if u := c.unit("C13-Q5", "node.parseScanArgs"); u != nil && limit != "" {
+		ok := false
+		var at string
+		for _, s := range u.Sites {
+			if s.Kind != flow.SStore || s.RHS == nil || u.C.Term(s.LHS) != "r2" {
+				continue
+			}
+			if u.C.Term(s.RHS) == limit {
+				if res := flow.Implies(u.SitePC(s), c.W.Parse(limit+" < r2")); res.Holds && res.Undecided == "" {
+					ok, at = true, u.Pos(s.Pos)
+				}
+			}
+		}
+		r.Check("C13-Q5", u.Name+": the parsed count is cut at the limit the store applies ("+limit+")", at, ok,
+			"without it a page that is full by the store's measure looks short to the handler when COUNT is above the limit: the empty cursor is returned and the rest is never listed")
+		// every handler measures its page against that count
+		n := 0
+		for _, fn := range []string{"node.(*KVNode).scanCommand", "node.(*KVNode).advanceScanCommand", "node.(*KVNode).hscanCommand", "node.(*KVNode).sscanCommand", "node.(*KVNode).zscanCommand"} {
+			hu := c.unit("C13-Q5", fn)
+			if hu == nil {
+				continue
+			}
+			tv := tupleVars(hu, "node.parseScanArgs")
+			okH := len(tv) == 4 && tv[2] != ""
+			if okH {
+				// no other assignment to the count
+				okH = len(hu.Match(an.LocalStore(tv[2]))) == 1
+			}
+			n++
+			r.Check("C13-Q5", fn+": the count compared with the page is the one parseScanArgs returned", "", okH, fmt.Sprint(tv))
+		}
+		r.Min("C13-Q5", n, 5, "scan handlers")
+	}
+}
+
+func init() {
+	old := registry["C13"].Run
+	registry["C13"].Run = func(c *Ctx) { old(c); c13Q5(c) }
+}
